@@ -1825,10 +1825,11 @@ def explain_vars(fn):
         while i < len(lst):
             s = lst[i]
             if isinstance(s, ast.Assign) and id(s) not in paired and len(s.targets) == 1 and isinstance(s.targets[0], ast.Tuple) and isinstance(s.value, ast.Tuple) and len(s.targets[0].elts) == len(s.value.elts) >= 2 \
-                    and all(isinstance(t, ast.Name) for t in s.targets[0].elts) and not any(isinstance(e, ast.Starred) for e in s.value.elts):
-                tn = {t.id for t in s.targets[0].elts}
-                pairs = [(t, e) for t, e in zip(s.targets[0].elts, s.value.elts) if not (isinstance(e, ast.Name) and e.id == t.id)]  # x = x says nothing
-                if len(tn) == len(s.targets[0].elts) and not any(isinstance(x, ast.Name) and x.id in tn for t, e in pairs for x in ast.walk(e)):
+                    and all(isinstance(t, (ast.Name, ast.Subscript, ast.Attribute)) for t in s.targets[0].elts) and not any(isinstance(e, ast.Starred) for e in s.value.elts) \
+                    and not any(isinstance(x, ast.Name) and x.id in {t.id for t in s.targets[0].elts if isinstance(t, ast.Name)} for t in s.targets[0].elts if not isinstance(t, ast.Name) for x in ast.walk(t)):
+                tn = {t.id for t in s.targets[0].elts if isinstance(t, ast.Name)}
+                pairs = [(t, e) for t, e in zip(s.targets[0].elts, s.value.elts) if not (isinstance(e, ast.Name) and isinstance(t, ast.Name) and e.id == t.id)]  # x = x says nothing
+                if len(tn) == sum(1 for t in s.targets[0].elts if isinstance(t, ast.Name)) and not any(isinstance(x, ast.Name) and x.id in tn for t, e in pairs for x in ast.walk(e)):
                     new = [ast.fix_missing_locations(ast.copy_location(ast.Assign(targets=[t], value=e), s)) for t, e in pairs] or [ast.copy_location(ast.Pass(), s)]
                     lst[i:i + 1] = new
                     i += len(new)
